@@ -14,6 +14,7 @@ FINDING_FAMILIES = ('RECORD-FIELD-ORDER', 'FUNCTOR-GROUND-EXPLICIT', 'INJ-RECORD
 def static_ok(rules, pred, schema='AB'):
   """range-restricted by the model's scheduler (evaluated on one-row tables)"""
   tables = {t: (cols, [tuple(1 for _ in cols)]) for t, cols in semcheck.SCHEMAS[schema].items()}
+  for t in list(tables): tables['main.' + t] = tables[t]
   try:
     refsem.Evaluator(rules, tables).rows(pred)
     return True
@@ -189,6 +190,7 @@ def all_exprs(full):
   for l in (l1, l2, l3):
     out += [l, Call('Size', l), ('elem', l, N(0)), ('elem', l, N(1)), ('inx', x, l), ('inx', N(2), l), ('elem', l, Bin('-', y, N(1)))]
   out += [('list', ()), Call('Size', ('list', ())), ('list', (S('a'), sx))]
+  out += [Call('ArrayConcat', l1, l3), Call('Size', Call('ArrayConcat', l1, l2)), ('inx', y, Call('ArrayConcat', ('list', (x,)), ('list', (N(2),)))), Call('Split', Bin('++', Bin('++', sx, S(',')), sy), S(','))]
   # records
   r1 = ('rec', (('a', x), ('b', y))); r2 = ('rec', (('a', x), ('r', ('rec', (('c', y), ('d', Bin('+', x, y)))))))
   out += [r1, r2, ('fld', r1, 'a'), ('fld', r1, 'b'), ('fld', ('fld', r2, 'r'), 'd'), ('fld', r2, 'r'), Bin('+', ('fld', r1, 'a'), ('fld', ('fld', r2, 'r'), 'c')),
@@ -672,6 +674,10 @@ def gen_agge(full):
     yield Case('AGGE', Program([R('T', x, s_, body=(Lit('B', x), form))]), ['T'])
   yield Case('AGGE', Program([R('T', x, s_, body=(Lit('B', x), Eq(s_, Comb('List', ('list', (y, x)), (Lit('A', x, y),)))))]), ['T'])
   yield Case('AGGH', Program([R('T', x, Aggr('List', recv), body=(Lit('A', x, y),), distinct=True)]), ['T'])
+  # a schema-qualified table (alias made from a sanitised name) in the outer body and again inside a correlated aggregating expression / negation
+  yield Case('AGGE', Program([R('T', x, y, s_, body=(Lit('main.A', x, y), Eq(s_, Comb('Sum', z, (Lit('main.A', x, z),)))))]), ['T'])
+  yield Case('AGGE', Program([R('T', x, y, body=(Lit('main.A', x, y), Not(Lit('main.A', y, z), Cmp('>', z, x))))]), ['T'])
+  yield Case('AGGE', Program([R('T', x, s_, body=(Lit('main.B', x), Eq(s_, Comb('Count', y, (Lit('main.A', x, y), Not(Lit('main.B', y)))))))]), ['T'])
   # an injectible function whose value is an aggregating expression, used twice in one rule, one use feeding the other
   Fs = R('Fs', x, value=Comb('Sum', y, (Lit('A', x, y),)))
   Fc = R('Fc', x, value=Comb('Count', y, (Lit('A', y, x),)))
@@ -934,6 +940,7 @@ def c02_cases(thorough):
       if null_safe(c) and not any(r.distinct and any(e[0] != 'aggr' and 'y' in lang.evars(e) for _, e in r.args) for r in c.program.rules()):
         c.dbs += NULL_DBS_AB
       if getattr(c, 'own_dbs', None): c.dbs = list(c.own_dbs); c.fact_dbs = []
+      if 'main.' in t: c.fact_dbs = []        # a schema-qualified name is a table of the database, not a predicate of the program
       yield c
 
 
@@ -983,6 +990,7 @@ def rec_shapes():
   S['tc_one_rule_base_last'] = ([D('T', x, y, body=(('or', ((Lit('T', x, z), E(z, y)), (E(x, y),))),))], ['T'], 'set', 'lin')
   S['tc_one_rule_bag_base_first'] = ([R('T', x, y, body=(('or', ((E(x, y),), (Lit('T', x, z), E(z, y)))),))], ['T'], 'bag', 'lin')
   S['tc_one_rule_bag_base_last'] = ([R('T', x, y, body=(('or', ((Lit('T', x, z), E(z, y)), (E(x, y),))),))], ['T'], 'bag', 'lin')
+  S['good_bad_through_negation'] = ([D('Bad', x, body=(E(x, x),)), D('Bad', y, body=(Lit('Good', x), E(x, y))), D('Good', x, body=(E(x, y), Not(Lit('Bad', x))))], ['Good', 'Bad'], 'agg', 'lin')
   S['consumer_of_recursive'] = ([D('T', x, y, body=(E(x, y),)), D('T', x, z, body=(E(x, y), Lit('T', y, z))), R('Cnt', x, Aggr('Count', y), body=(Lit('T', x, y),), distinct=True),
                                  R('Neg', x, body=(E(x, y), Not(Lit('T', y, x))))], ['Cnt', 'Neg'], 'agg', 'lin')
   S['tc_left_bag'] = ([R('T', x, y, body=(E(x, y),)), R('T', x, z, body=(Lit('T', x, y), E(y, z)))], ['T'], 'bag', 'lin')
@@ -1035,7 +1043,8 @@ def c03_cases(thorough):
     rec_preds = sorted({r.pred for r in rules if isinstance(r, Rule)})
     for depth in depths:
       d = 8 if depth is None else depth
-      if kind == 'bag' and name in BAG_TC and d > 3: continue     # path counts explode on cyclic graphs
+      if kind == 'bag' and name in BAG_TC and d > 3: continue
+      if name == 'good_bad_through_negation' and d <= 20: continue      # not monotone: only the iterative plan is the simultaneous iteration (a cut unfolding is merely sandwiched, which needs monotonicity)     # path counts explode on cyclic graphs
       anns = [None]
       if depth is not None:
         ev = refsem.Evaluator([r for r in rules if isinstance(r, Rule)], {'E': (['col0', 'col1'], [])})
